@@ -748,6 +748,18 @@ def r5_reconnect(program, rep):
             edges = [st_ for st_ in subterms(item)
                      if st_[0] == "cmp" and st_[1] == "Eq" and
                      NEW in (st_[2], st_[3])]
+            if not edges and view is T:
+                # the list of matching edges filled by a loop instead of a
+                # comprehension: the same filter, read off the loop
+                for st_ in subterms(item):
+                    if st_[0] != "new":
+                        continue
+                    built_ = T.filtered(st_)
+                    for it__, el__, conds__ in (built_ or []):
+                        edges += [c__ for c__, p__ in conds__
+                                  if p__ and c__[0] == "cmp" and
+                                  c__[1] == "Eq" and
+                                  NEW in (c__[2], c__[3])]
             okd = bool(edges)
     rep.check(okd, "C03-R5", inst, "a node of the orphan that the detour "
               "passes through is first detached from its previous parent, "
